@@ -515,11 +515,18 @@ fn part_d(a: &Args, shared: &SharedReport, th: bool) {
                         if sym {
                             b = b.symmetry_fn(pm_rep);
                         }
-                        let c = b.spawn_dfs().join();
-                        // a path that cannot be rebuilt panics inside discoveries(): that is a verdict, not a harness crash
-                        let disc = std::panic::catch_unwind(std::panic::AssertUnwindSafe(|| c.discoveries()));
+                        // a path that cannot be rebuilt panics - in the worker that builds the visitor's path (then join()
+                        // panics) or inside discoveries(): that is a verdict, not a harness crash
+                        let res = std::panic::catch_unwind(std::panic::AssertUnwindSafe(move || {
+                            let c = b.spawn_dfs().join();
+                            let d = c.discoveries();
+                            (c.unique_state_count(), d)
+                        }));
                         let visited = vis.lock().unwrap().clone();
-                        (c.unique_state_count(), disc, visited)
+                        match res {
+                            Ok((u, d)) => (u, Ok(d), visited),
+                            Err(e) => (0, Err(e), visited),
+                        }
                     };
                     let rv = json!({"engine": "c10d", "k": k, "rel": relcode, "flag": flag, "props": format!("{:?}", m.props), "inits": m.inits});
                     begin_case(shared, "c10d", rv.clone(), "machinery:hang");
@@ -693,14 +700,24 @@ fn actors_under_symmetry(a: &Args, shared: &SharedReport, th: bool, crashes: usi
                     if sym {
                         b = b.symmetry();
                     }
-                    let c = b.spawn_dfs().join();
-                    let names: BTreeSet<String> = c.discoveries().keys().map(|k| k.to_string()).collect();
+                    let res = std::panic::catch_unwind(std::panic::AssertUnwindSafe(move || {
+                        let c = b.spawn_dfs().join();
+                        let names: BTreeSet<String> = c.discoveries().keys().map(|k| k.to_string()).collect();
+                        (c.unique_state_count(), names)
+                    }));
                     let o = vis.lock().unwrap().clone();
-                    (c.unique_state_count(), names, o)
+                    res.map(|(u, names)| (u, names, o)).map_err(|_| ())
                 };
-                let (u_plain, d_plain, orbits_plain) = run(false);
-                let (u_sym, d_sym, orbits_sym) = run(true);
+                let (rp, rs) = (run(false), run(true));
                 end_case(shared);
+                let ((u_plain, d_plain, orbits_plain), (u_sym, d_sym, orbits_sym)) = match (rp, rs) {
+                    (Ok(a), Ok(b)) => (a, b),
+                    (a, b) => {
+                        let mut r = shared.lock().unwrap();
+                        r.violation(&format!("{prefix}:actor-symmetry-path-not-real"), format!("max_crashes={crashes} n={n} kind={kind}: join() or discoveries() panicked while a reported path was rebuilt (plain dfs ok: {}, with symmetry ok: {})", a.is_ok(), b.is_ok()), rv.clone());
+                        continue;
+                    }
+                };
                 let mut r = shared.lock().unwrap();
                 r.evaluations += 2;
                 r.traces += 2;
